@@ -207,19 +207,23 @@ static int check_draw(Src &s, Report &r, vbi_page *pg, bool teletext, bool *nt) 
 	size_t bpp = fmt == VBI_PIXFMT_PAL8 ? 1 : 4;
 	const int G = 3;	// guard pixels around the region
 	size_t pw = (size_t)(w * CW + 2 * G + (int) s.pick(8)), ph = (size_t)(h * CH + 2 * G);
+	// one region in six is drawn with rowstride -1, documented as "pg->columns * character width * bytes per pixel": a canvas as wide as the page
+	bool def_stride = s.chance(1, 6);
+	int Gx = G; if (def_stride) { pw = (size_t)(pg->columns * CW); Gx = 0; }
 	size_t stride = pw * bpp;
+	int stride_arg = def_stride ? -1 : (int) stride;
 	std::vector<uint8_t> cv(stride * ph, 0xA7);
-	uint8_t *origin = cv.data() + (size_t) G * stride + (size_t) G * bpp;
+	uint8_t *origin = cv.data() + (size_t) G * stride + (size_t) Gx * bpp;
 	int reveal = (int) s.pick(2), flash = (int) s.pick(2);
-	if (teletext) vbi_draw_vt_page_region(pg, fmt, origin, (int) stride, col, row, w, h, reveal, flash);
-	else vbi_draw_cc_page_region(pg, fmt, origin, (int) stride, col, row, w, h);
+	if (teletext) vbi_draw_vt_page_region(pg, fmt, origin, stride_arg, col, row, w, h, reveal, flash);
+	else vbi_draw_cc_page_region(pg, fmt, origin, stride_arg, col, row, w, h);
 	int rc = 0;
 	for (size_t y = 0; y < ph && !rc; ++y) for (size_t x = 0; x < pw; ++x) {
-		bool inside = supported && y >= (size_t) G && y < (size_t)(G + h * CH) && x >= (size_t) G && x < (size_t)(G + w * CW);
+		bool inside = supported && y >= (size_t) G && y < (size_t)(G + h * CH) && x >= (size_t) Gx && x < (size_t)(Gx + w * CW);
 		if (inside) continue;
 		for (size_t b = 0; b < bpp; ++b) if (cv[y * stride + x * bpp + b] != 0xA7) {
-			rc = r.fail(supported ? "C16:draw-outside-region" : "C16:draw-unsupported-format", "%s region %d,%d %dx%d format %d: pixel (%zu, %zu) relative to the region origin (-%d) was written, the region is %d x %d pixels",
-				teletext ? "Teletext" : "caption", col, row, w, h, fmt, x, y, G, w * CW, h * CH);
+			rc = r.fail(supported ? "C16:draw-outside-region" : "C16:draw-unsupported-format", "%s region %d,%d %dx%d format %d: pixel (%zu, %zu) relative to the region origin (-%d, -%d) was written, the region is %d x %d pixels%s",
+				teletext ? "Teletext" : "caption", col, row, w, h, fmt, x, y, Gx, G, w * CW, h * CH, def_stride ? " (rowstride -1)" : "");
 			break;
 		}
 		if (rc) break;
@@ -227,9 +231,9 @@ static int check_draw(Src &s, Report &r, vbi_page *pg, bool teletext, bool *nt) 
 	// every pixel of the region is defined by the page: a second rendering over a different canvas content gives the same pixels
 	if (!rc && supported) {
 		std::vector<uint8_t> cv2(stride * ph, 0x5B);
-		uint8_t *o2 = cv2.data() + (size_t) G * stride + (size_t) G * bpp;
-		if (teletext) vbi_draw_vt_page_region(pg, fmt, o2, (int) stride, col, row, w, h, reveal, flash);
-		else vbi_draw_cc_page_region(pg, fmt, o2, (int) stride, col, row, w, h);
+		uint8_t *o2 = cv2.data() + (size_t) G * stride + (size_t) Gx * bpp;
+		if (teletext) vbi_draw_vt_page_region(pg, fmt, o2, stride_arg, col, row, w, h, reveal, flash);
+		else vbi_draw_cc_page_region(pg, fmt, o2, stride_arg, col, row, w, h);
 		for (int y = 0; y < h * CH && !rc; ++y) {
 			const uint8_t *a = origin + (size_t) y * stride, *b = o2 + (size_t) y * stride;
 			if (memcmp(a, b, (size_t) w * CW * bpp)) { size_t x = 0; while (a[x] == b[x]) ++x; size_t cx = (size_t) col + x / bpp / CW; const vbi_char &cc = pg->text[(row + y / CH) * pg->columns + (int) cx];
@@ -258,6 +262,7 @@ static int check_draw(Src &s, Report &r, vbi_page *pg, bool teletext, bool *nt) 
 			}
 		}
 	}
+	if (def_stride) r.cls("draw-with-default-rowstride");
 	r.cls(teletext ? "draw-teletext-region" : "draw-caption-region");
 	return rc;
 }
